@@ -158,6 +158,13 @@ def _gen_item(repo, blk, gen):
     label = (a.get('impl', '') + '::' if a.get('impl') else '') + name
     p = Piece(src, i, j, label)
     _apply_common(p, blk)
+    if blk.get('make_pub'):
+        st = src.s
+        k = i
+        while not (st[k].kind == 'ident' and st[k].text == kind):
+            k += 1
+        if not any(st[q].text == 'pub' for q in range(i, k)):
+            p.insert_before(k, 'pub ', 'make_pub')
     if kind == 'fn':
         k, pc, arrow, body = p.fn_parts()
         if a.get('ret'):
@@ -170,6 +177,19 @@ def _gen_item(repo, blk, gen):
             p.insert_after(body, '\n' + '\n'.join(blk['prologue']) + '\n')
         if blk.get('epilogue'):
             p.insert_before(p.b, '\n' + '\n'.join(blk['epilogue']) + '\n')
+    if kind == 'const' and blk.get('const_ensures'):
+        # `const N: T = e;`  ->  `exec const N: T ensures <spec> { <proof> e }` (Verus form of a
+        # constant with a postcondition); `=` and `;` are the only tokens replaced
+        st = src.s
+        k = i
+        while not (st[k].kind == 'ident' and st[k].text == 'const'):
+            k += 1
+        eqi = k
+        while st[eqi].text != '=':
+            eqi += 1
+        p.insert_before(k, 'exec ', 'const_form')
+        p.replace_tokens(eqi, eqi, '\n' + '\n'.join(blk['const_ensures']) + '\n{' + '\n'.join(blk.get('prologue', [])), 'const_form')
+        p.replace_tokens(j, j, '\n'.join(blk.get('epilogue', [])) + '}', 'const_form')
     rendered = p.render()
     n = extract.check_piece(p, rendered)
     meta = p.meta()
@@ -273,7 +293,7 @@ def generate(repo, template_text, variables=None):
             if d == 'end':
                 {'item': _gen_item, 'slice': _gen_slice}[blk['type']](repo, blk, gen)
                 blk = None
-            elif d in ('spec', 'prologue', 'epilogue', 'header'):
+            elif d in ('spec', 'prologue', 'epilogue', 'header', 'const_ensures'):
                 blk[d] = []
                 section = blk[d]
             elif d == 'closure_spec':
@@ -293,7 +313,7 @@ def generate(repo, template_text, variables=None):
                 blk.setdefault('after_all', []).append((frm.strip(), to.strip()))
             elif d in ('strip', 'keep_attrs', 'from', 'through'):
                 blk[d] = rest
-            elif d in ('through_close', 'inner'):
+            elif d in ('through_close', 'inner', 'make_pub'):
                 blk[d] = True
             else:
                 raise TemplateError(f'line {i+1}: unknown directive {d}')
